@@ -114,9 +114,27 @@ def scenarios(seed, thorough):
                 sc.round(k)
             sc.stop(K + 1)
             out.append(sc.s)
+        # staggered rounds: the members reach the barrier one after the other, the driver idling in between -- a barrier
+        # that lets the first ones through early shows up in the log before the last one's Next
+        for faulty in (False, True):
+            sc = cluster(faulty)
+            sc.start()
+            for k in range(2, 4):
+                who = list(sc.h)
+                r.shuffle(who)
+                for i in who[:-1]:
+                    sc.ev("Next", i=i)
+                    if sc.f:
+                        sc.fmsg(i, k)
+                    sc.ev("Yield", ms=25)
+                sc.ev("Next", i=who[-1])
+                if sc.f:
+                    sc.fmsg(who[-1], k)
+                sc.await_()
+            out.append(sc.s)
         # one fault towards one member t after the ceremony reached step k
         for kind in ("regress", "jump3", "toofar", "auth_mid", "auth_first", "initial2", "frej", "early_shutdown", "reconnect",
-                     "disconnect", "silent", "invalid_then_valid"):
+                     "disconnect", "silent", "invalid_then_valid", "no_flag"):
             sc = cluster(True)
             if kind == "frej":
                 sc = Sc(r, sc.n, sc.f, frej=True)
@@ -175,6 +193,13 @@ def scenarios(seed, thorough):
                 sc.fall(k + 2)
                 sc.fall(k + 2, skip=[t], shutdown=True)
                 sc.await_()
+            elif kind == "no_flag":
+                # the faulty member never sends its shutdown flag to t: t must not complete, the others do
+                sc.round(k + 1)
+                sc.calls("Stop")
+                sc.fall(k + 2)
+                sc.fall(k + 2, skip=[t], shutdown=True)
+                sc.await_(others)
             elif kind == "reconnect":
                 sc.ev("FClose", s=sc.stream[t])
                 del sc.stream[t]
@@ -222,18 +247,17 @@ def mutators():
         return None
 
     def answer_flipped(t):
-        i = first(t, lambda e: e["ev"] == "FMsg" and e.get("resp") in ("sig", "ver", "step"))
+        i = first(t, lambda e: e["ev"] == "FResp" and e.get("resp") in ("sig", "ver", "step"))
         if i is None:
             return None
         t[i]["resp"] = "ok"
         return t
 
     def regress_accepted(t):
-        i = first(t, lambda e: e["ev"] == "FMsg" and e.get("resp") == "ok" and e["step"] >= 2 and not e["shutdown"])
-        if i is None:
+        i = first(t, lambda e: e["ev"] == "FMsg" and e["auth"] == "ok" and e["step"] >= 2 and not e["shutdown"])
+        if i is None or t[i + 1]["ev"] != "FResp" or t[i + 1]["resp"] != "ok":
             return None
-        t.insert(i + 1, dict(t[i], step=0))
-        return t[:i + 2]
+        return t[:i + 2] + [dict(t[i], step=0), dict(t[i + 1])]
 
     def failure_without_cause(t):
         if t[0]["f"] != 0:
@@ -280,14 +304,14 @@ def design_check(o, thorough):
     from concurrent.futures import ThreadPoolExecutor
     pid = o.pid
     main_cfg = "DKGSyncMC.cfg" if thorough else "DKGSyncMC_quick.cfg"
-    ok_cfgs = [main_cfg, "DKGSyncMC_crash.cfg", "DKGSyncMC_liveerr.cfg"] + (["DKGSyncMC_live.cfg"] if thorough else [])
+    ok_cfgs = [main_cfg, "DKGSyncMC_crash.cfg"] + (["DKGSyncMC_liveerr.cfg", "DKGSyncMC_live.cfg"] if thorough else ["DKGSyncMC_liveerr_quick.cfg"])
     jobs = [(c, None, None) for c in ok_cfgs] + [(c, want, what) for c, want, what in CONTROLS]
     dirs = [vlib.scratch(pid, FAMILY) for _ in jobs]
     half = max(2, vlib.NCPU // 2)
 
     def run(k):
         c = jobs[k][0]
-        return vlib.tlc(pid, FAMILY, "DKGSyncMC", c, timeout=1500, sdir=dirs[k], workers=half if c == main_cfg else 2)
+        return vlib.tlc(pid, FAMILY, "DKGSyncMC", c, timeout=1500, sdir=dirs[k], workers=half if c == main_cfg else 4 if "live" in c else 2)
     with ThreadPoolExecutor(max_workers=len(jobs)) as ex:
         res = list(ex.map(run, range(len(jobs))))
     for (c, want, what), r in zip(jobs, res):
@@ -303,13 +327,15 @@ def design_check(o, thorough):
         o.selftests.append({"control": "DKGSync spec variant: " + what, "rejected_as_required": True})
 
 
-def stage(o, tier, seed):
-    """Run the DKGSync family as an extra stage of an existing check (Outcome `o` collects coverage and violations)."""
+def stage(o, tier, seed, mc=True):
+    """Run the DKGSync family as an extra stage of an existing check (Outcome `o` collects coverage and violations).
+    mc=False (or env GROW_SKIP_MC=1) skips the design check: for mutation experiments on the implementation only."""
     t0 = time.time()
     if not os.path.exists(os.path.join(vlib.REPO, HOOK)):
         raise vlib.Infra("DKGSync needs the build-tag hook %s in %s (see /verif/pending_hooks/%s)" % (HOOK, vlib.REPO, HOOK))
     thorough = tier == "thorough"
-    design_check(o, thorough)
+    if mc and not os.environ.get("GROW_SKIP_MC"):
+        design_check(o, thorough)
     sch = []
     for cfg, num in (("DKGSyncGen.cfg", 40), ("DKGSyncGen_late.cfg", 60), ("DKGSyncGen_crash.cfg", 25), ("DKGSyncGen_honest.cfg", 15)):
         s, _ = vlib.gen_schedules(o.pid, FAMILY, "DKGSyncGen", cfg, num=num * (4 if thorough else 1), depth=400, seed=seed,
@@ -327,15 +353,15 @@ def stage(o, tier, seed):
     for t in tr:
         for e in t:
             k = e["ev"] + ("" if "ok" not in e else (":ok" if e["ok"] else ":" + str(e.get("err"))))
-            if e["ev"] == "FMsg":
-                k = "FMsg:" + str(e.get("resp"))
+            if e["ev"] == "FResp":
+                k = "FResp:" + str(e.get("resp"))
             cnt[k] = cnt.get(k, 0) + 1
     o.extra["dkgsync_events"] = cnt
     log("[%s] DKGSync stage: %d runs, %.0fs; returns ok/err: started %d/%d passed %d/%d stopped %d/%d; refused messages %d"
         % (o.pid, len(tr), time.time() - t0, cnt.get("Started:ok", 0), sum(v for k, v in cnt.items() if k.startswith("Started:") and k != "Started:ok"),
            cnt.get("Passed:ok", 0), sum(v for k, v in cnt.items() if k.startswith("Passed:") and k != "Passed:ok"),
            cnt.get("Stopped:ok", 0), sum(v for k, v in cnt.items() if k.startswith("Stopped:") and k != "Stopped:ok"),
-           sum(v for k, v in cnt.items() if k in ("FMsg:sig", "FMsg:ver", "FMsg:step"))))
+           sum(v for k, v in cnt.items() if k in ("FResp:sig", "FResp:ver", "FResp:step"))))
 
 
 RULE = ("DKGSync: real dkg.startSyncProtocol (sync server, clients, monitor, step barrier, shutdown) for every honest member on "
